@@ -238,7 +238,7 @@ Proof.
                   |r cid0 next callee Hm Hc Ha Hb Hs Hl Hf Hpa Hpr Hd E];
     try exact I; try exact N; try (now apply nps_nd); try (eapply nd_same; [| |exact N]; reflexivity).
   - (* further chunk *)
-    set (lt := local_timer (opt_int64 (inv_opts inv) "timeout") callee r).
+    set (lt := local_timer (opt_int64 (inv_opts inv) "timeout") callee (inv_callee inv) r).
     apply (nd_touch d _ ikey inv W N Hi).
     + intros k' Hn. now rewrite chs_invs, cget_cset_other.
     + intros inv0' t. rewrite chs_invs, cget_cset_same, chs_timers. fold lt. destruct lt.
@@ -249,7 +249,7 @@ Proof.
     + intros t H Hn. rewrite chs_timers. fold lt. destruct lt; [|exact H].
       rewrite nget_nset. destruct (N.eqb t (d_timergen d + 1)); [discriminate|]. now apply ct_keeps.
   - (* first chunk *)
-    set (lt := local_timer (opt_int64 opts "timeout") callee r).
+    set (lt := local_timer (opt_int64 opts "timeout") callee cid0 r).
     apply (nd_add d _ (cid0, idgen_next (s_invgen callee)) N).
     + intros k' Hn. now rewrite cfs_invs, cget_cset_other.
     + intros inv0' t. rewrite cfs_invs, cget_cset_same, cfs_timers. unfold first_inv. fold lt.
